@@ -88,20 +88,31 @@ def _w_freq(res, p):
     keys = ["".join(b) for b in itertools.product("01", repeat=w)]
     if p.get("subset"):
         keys = [k for i, k in enumerate(keys) if i in p["subset"]]
-    names = {f"n_{k}": z3.Int(f"n_{k}") for k in keys}
-    base = [z >= 0 for z in names.values()] + [sum(names.values()) >= 1]
+    if p.get("subset_range"):
+        keys = [keys[i] for i in range(*p["subset_range"])]
+    stride = p.get("sym_stride")
+    symkeys = keys if not stride else [k for i, k in enumerate(keys) if i % stride == 0 or i >= len(keys) - 2]
+    names = {f"n_{k}": z3.Int(f"n_{k}") for k in symkeys}
+    conc = {k: 1 + i % 3 for i, k in enumerate(keys) if k not in set(symkeys)}  # large histograms: the other counts are numbers
+    base = [z >= 0 for z in names.values()] + [sum(names.values()) + sum(conc.values()) >= 1]
     records = []
     res.nontrivial()
 
     def fn(ex):
-        freqs = {k: ST.SV(names[f"n_{k}"], True) for k in keys}
+        freqs = {k: (ST.SV(names[f"n_{k}"], True) if f"n_{k}" in names else conc[k]) for k in keys}
         before = dict(freqs)
         val = get_expectation_value_from_frequencies(p["marked_arg"] if "marked_arg" in p else marked, freqs)
         if ST.poisoned(val):
             raise ST.Inconclusive("NaN poison")
-        N = sum(names.values())
-        want_num = sum(eig(k, marked) * names[f"n_{k}"] for k in keys)
-        records.append(("frequency-expectation",) + ex.prove(ST.zr_real(val) * z3.ToReal(N) == z3.ToReal(want_num)))
+        N = sum(names.values()) + sum(conc.values())
+        want_num = sum(eig(k, marked) * (names[f"n_{k}"] if f"n_{k}" in names else conc[k]) for k in keys)
+        cd = ST.clear_common_den(ST.zr_real(val)) if len(keys) > 16 else None
+        if cd is not None:
+            # large histograms: all divisions share one denominator D; decide D == N and (value * D) == numerator, both division-free
+            claim = z3.And(cd[1] == z3.ToReal(N), cd[0] == z3.ToReal(want_num))
+        else:
+            claim = ST.zr_real(val) * z3.ToReal(N) == z3.ToReal(want_num)
+        records.append(("frequency-expectation",) + ex.prove(claim))
         records.append(("arguments-unchanged",) + ex.prove(z3.BoolVal(list(freqs) == list(before) and all(freqs[k] is before[k] for k in keys))))
         return val
 
@@ -303,6 +314,10 @@ def instances(tier, seed):
             items.append(("freq", {"width": w, "marked": marked, "label": f"width={w} marked={marked}"}))
     items.append(("freq", {"width": 3, "marked": [2, 0], "subset": [1, 4, 6], "label": "width=3 marked=[2,0] keys 001,100,110 only"}))
     items.append(("freq", {"width": 2, "marked": [1, 1 - 1][:1], "marked_arg": (1,), "label": "width=2 marked as tuple"}))
+    # large histograms (thousands of distinct outcomes, every count symbolic): sizes around powers of two and in between
+    wide = [(13, [0, 12], [0, 8192, 2], "4096 keys"), (13, [5], [1, 8192, 2], "4096 keys, odd"), (13, [0, 12], [0, 8191, 1][:3], "8191 keys"), (13, [], [0, 4097, 1], "4097 keys, constant term"), (13, [3, 7, 11], [100, 4197, 1], "4097 keys"), (9, [0, 8], [0, 257, 1], "257 keys")]
+    for w, marked, rng_, tag in (wide if tier == "thorough" else [wide[4], wide[5]]):
+        items.append(("freq", {"width": w, "marked": marked, "subset_range": rng_, "label": f"width={w} marked={marked} {tag} (range {rng_})"}))
     for w in (2, 3):
         outcomes = list(itertools.product((0, 1), repeat=w))
         multisets = [list(ms) for n in (1, 2, 3) for ms in itertools.combinations_with_replacement(outcomes, n)]
@@ -363,7 +378,9 @@ def replay(data):
             keys = ["".join(b) for b in itertools.product("01", repeat=w)]
             if p.get("subset"):
                 keys = [k for i, k in enumerate(keys) if i in p["subset"]]
-            freqs = {k: int(vals.get(f"n_{k}", 1)) for k in keys}
+            if p.get("subset_range"):
+                keys = [keys[i] for i in range(*p["subset_range"])]
+            freqs = {k: int(vals.get(f"n_{k}", 1 + i % 3 if p.get("sym_stride") else 1)) for i, k in enumerate(keys)}
             try:
                 got = get_expectation_value_from_frequencies(marked, dict(freqs))
             except Exception as e:
